@@ -26,8 +26,8 @@ def check(ctx):
     # JoinHandle::join hands back the payload
     f = ctx.fn("R-ORDER", "may::join::JoinHandle::join", "payload-returned")
     if f is not None:
-        cl = ctx.prog.closures_of(f)
-        ok = any(ctx.an.may(g, ao("take")) for g in cl)
+        # the fallback to the panic slot may sit in a closure (`ok_or_else(|| self.panic.take()..)`) or in a `match` arm
+        ok = any(ctx.an.may(g, ao("take", "may::join::JoinHandle.panic")) or ctx.an.may(g, ao("take", "may::join::Join.panic")) for g in [f] + ctx.prog.closures_of(f))
         ctx.ob("R-ORDER", "may::join::JoinHandle::join", "payload-returned", ok, "join() falls back to the stored panic payload when there is no result" if ok else
                "join() no longer reads the panic slot", f.where())
     shared.poison_rules(ctx)
